@@ -127,6 +127,19 @@ class GradHistory:
             (x * 2.0).backward(seed("s1", (2,), g1))
             x.zero_()
             x.backward(seed("s2", (2,), g2))
+        elif name == "foreign_buffer_then_reset":
+            # a gradient of the other floating type was put on the tensor (assignment through the public setter); a reset
+            # followed by a backward must leave a gradient of the tensor's own type again
+            x.grad = seed("s0", (2,), other)
+            x.zero_()
+            (x * 2.0).backward(seed("s1", (2,), g1))
+        elif name == "recast_then_reset":
+            # the tensor's data is re-bound in the other floating type after a first backward (what the initialisers do with
+            # parameters); after a reset the gradient follows the tensor's current type
+            (x * 2.0).backward(seed("s1", (2,), g1))
+            x.data = x.data.astype(other)
+            x.zero_()
+            (x * 3.0).backward(seed("s2", (2,), g2))
         elif name == "interior_then_root":
             y = x * 2.0
             z = y.exp()
@@ -147,7 +160,7 @@ class GradHistory:
 
 
 GRAD_HISTORIES = ["leaf_root_twice", "accumulate", "leaf_root_after_graph", "mixed_operands", "retained_root_twice",
-                  "default_seed", "reset_between", "interior_then_root"]
+                  "default_seed", "reset_between", "interior_then_root", "foreign_buffer_then_reset", "recast_then_reset"]
 
 
 def build(spec):
